@@ -302,6 +302,45 @@ def strace_case(case, profile="dev"):
     return ev, (res[0] if res else {})
 
 
+def serve_prologue_check(R, oid, key):
+    """the real `copia serve ROOT` on inputs that never get as far as a well-formed request: the served tree (the `.copia` control
+    directory aside) must be byte-for-byte what it was - including files that look like someone's staging files"""
+    import shutil, tempfile
+    from . import c04
+    inputs = [("no input at all", b""), ("banner text instead of the magic", b"SSH-2.0-OpenSSH_9.6\r\n"), ("the magic and nothing else", b"COPIA1"),
+              ("the magic and half a length prefix", b"COPIA1\x00\x00"), ("the magic and a frame cut short", b"COPIA1\x00\x00\x00\x10\xa1"),
+              ("the magic and an oversized length prefix", b"COPIA1\xff\xff\xff\xff"), ("the magic and a frame that is not a request", b"COPIA1\x00\x00\x00\x01\xf6")]
+    for prof in ("dev", "release"):
+        exe = c04.build_copia(prof)
+        for label, data in inputs:
+            base = tempfile.mkdtemp(prefix="copia-verif-srv-")
+            try:
+                root = os.path.join(base, "hub")
+                os.makedirs(os.path.join(root, "d"))
+                tree = {"a.txt": b"hi", "d/b.bin": b"\x00\x01", "upload.copia-tmp": b"another server's write in flight", "d/x.copia-tmp": b"partial"}
+                for k, v in tree.items():
+                    open(os.path.join(root, k), "wb").write(v)
+                p = subprocess.run([exe, "serve", root], input=data, stdout=subprocess.PIPE, stderr=subprocess.PIPE, timeout=60)
+                after = {}
+                for dd, _, fs in os.walk(root):
+                    if os.path.relpath(dd, root).split(os.sep)[0] == ".copia":
+                        continue
+                    for f in fs:
+                        after[os.path.relpath(os.path.join(dd, f), root)] = open(os.path.join(dd, f), "rb").read()
+                why = None
+                if p.returncode < 0 or p.returncode >= 128 or b"panicked" in p.stderr:
+                    why = "the server crashed (status %d): %s" % (p.returncode, p.stderr.decode(errors="replace")[-160:])
+                elif after != tree:
+                    gone = sorted(set(tree) - set(after))
+                    why = "the served tree changed before any well-formed request: %s" % (("removed " + ", ".join(gone)) if gone else "content differs")
+                if why:
+                    c = {"fn": "serve_prologue", "label": label, "input": list(data), "observed": {prof: {"rc": p.returncode, "tree_after": sorted(after)}}, "deviation": why}
+                    return {"confirmed": True, "replay_path": R.save_replay(oid, c), "key": key, "detail": "`copia serve` given %s (%s): %s" % (label, prof, why)}
+            finally:
+                shutil.rmtree(base, ignore_errors=True)
+    return {"confirmed": False, "detail": "`copia serve` leaves the served tree untouched on %d inputs that never reach a well-formed request (dev+release)" % len(inputs)}
+
+
 def outside_check(R, oid, key, only=None):
     """strace of the degenerate / refused / odd-path scenarios: NO create, mkdir, rename or unlink by path may name anything under
     the oracle's world directory that is not the served root or below it - also not transiently (a staging file that is created
